@@ -14,31 +14,41 @@ Proved here (emit side + input forms, for ALL inputs):
     base64 text of each of the three magics has a non-hex, non-space character among its first two characters
     ('t' in "te6cc…", 'P' in "aP9l8…", 'r' in "rMOnK…").
 
+  * `c03_emit_denotes` — (= C04's `c04_conforms`) the bytes `to_boc` emits for a spec-valid typed tree `t` denote, under the
+    independent strict reader, exactly `[t]`.
+
 THE COMPOSITION (to be assembled by the coordinator once the parser model of C05 is merged):
 
-  theorem c03_roundtrip (H) (t : Cell) (wf : TreeWF H t) (tagged …) (p) (hp : Cell.build H t = some p) (nc : NoCollision p)
-      (o : Opts) (hv : o.valid) (fuel ≥ 6·cells+2) :
-      ∃ bs, p.toBoc fuel o = some bs ∧ ∀ form ∈ {inl bs, inr (hexEnc bs), inr (b64Enc bs)},
-        (inputBytes form).bind (BocParse.deserialize H) = some [t']     -- t' = the parser's image of t (same bits/type/refs/hash)
+  theorem c03_roundtrip (H) (t : Cell) (wf : TreeWF H t) (ty : Typed t) (p) (hb : Cell.build H t = some p) (nc : NoCollision p)
+      (fuel) (ord) (h : p.order fuel = some ord) (o : Opts) (hv : o.valid) (hn …) (hP …) :
+      ∃ bs, p.toBoc fuel o = some bs ∧
+        ∀ form ∈ [Sum.inl bs, Sum.inr (hexEnc bs), Sum.inr (b64Enc bs)],
+          (inputBytes form).bind (BocParse.deserialize H) = some [p']   with  p'.info = p.info, scellOf p' = toSCell t
+          (identical hash = `info.hash`, identical bits / type / refs recursively)
 
-  needs from the parser model (Model/BocParse.lean, owner `bocin`), with these exact roles:
-    BocParse.deserializeBocHeader : Bytes → Option Header'           (model of `Boc.deserialize_boc_header`)
-    BocParse.deserializeCell      : Bytes → Nat → Option (… × Nat)   (model of `Boc.deserialize_cell`)
-    BocParse.deserialize          : (H) → Bytes → Option (List PCell) (model of `Boc.deserialize`, roots)
-  and one lemma about it, the parser-side twin of `strictFlat_emit`:
-    BocParse.deserialize_of_strictFlat : strictFlat bs = some ⟨recs, roots⟩ → (records evaluate) →
-        BocParse.deserialize H bs = some (roots.map (rebuild recs))
-  (every encoding the strict reader accepts is parsed by the library to the denoted cells — this is C05's `c05_accepts`
-  specialised to the emitter's freedoms), from which `c03_roundtrip` follows with `c03_emit_decodes`, `order_valid`,
-  `c03_forms_emit` and the cell↔record lemma listed as missing in Properties/C04.lean.
-  Entry points: `Slice.one_from_boc = (deserialize …)[0].begin_parse()`, `Builder.one_from_boc = (…)[0].to_builder()`;
-  `c03_entrypoints` is a statement about Model/Builder.lean's `begin_parse`/`to_builder` images and needs nothing else.
+  It needs from the parser model (lean/TonVerif/Model/BocParse.lean, owner `bocin`) exactly:
+    BocParse.deserialize : (H : Bytes → Bytes) → Bytes → Option (List PCell)     -- model of `Boc.deserialize` (header + cells + rebuild, roots)
+  and ONE lemma about it (the parser-side twin of `strictParse_toBoc`; it is C05's `c05_accepts` restricted to the
+  emitter's freedoms: minimal widths, no stored hashes, one root, b5ee9c72 magic):
+    BocParse.deserialize_of_strict :
+      Spec.Boc.strictFlat bs = some ⟨recs, roots⟩ → Spec.Boc.evalRecs H recs = some vals →
+      ∃ ps, BocParse.deserialize H bs = some ps ∧
+        ps.map scellOf = roots.filterMap (fun i => (vals[recs.length - 1 - i]?).map (·.2))
+        ∧ (each p' ∈ ps is `Cell.build H` of its denoted tree)
+  Then `c03_roundtrip` = `c03_forms_emit` (the three forms give `bs`) ∘ `c04_conforms`/`c03_emit_denotes`
+  (`strictParse H bs = some [toSCell t]`, whose proof exposes `strictFlat bs` and `evalRecs`: Proofs.BocEmit.strictFlat_emit,
+  Proofs.BocSem.evalRecs_order) ∘ `deserialize_of_strict`; hash equality follows from `Cell.build` being a function of the tree
+  (`Proofs.BocSem.build_sem`: `Cell.info H t = some p.info`).
+  Entry points: `Slice.one_from_boc = (deserialize …)[0].begin_parse()`, `Builder.one_from_boc = (…)[0].to_builder()`
+  (Model/Builder.lean images of the root cell; `to_builder` refuses exotic roots — known finding).
 -/
 import TonVerif.Proofs.BocEmit
 import TonVerif.Proofs.BocForms
+import TonVerif.Proofs.BocSemFinal
 
 namespace TonVerif.Properties.C03
 open TonVerif TonVerif.Model TonVerif.Model.BocForms TonVerif.Spec.Boc TonVerif.Proofs.BocEmit TonVerif.Proofs.BocForms
+  TonVerif.Proofs.BocOrder TonVerif.Proofs.BocSem TonVerif.Proofs.CellSpec
 
 /-- emit half of the round trip: the emitted bytes decode (independent strict reader, byte-level layer) to exactly the
 records that were serialised, with root index 0 — for every record list / valid order and all 6 option sets. -/
@@ -47,6 +57,22 @@ theorem c03_emit_decodes (o : Opts) (as : List ARec) (hv : o.valid = true) (h1 :
     ∃ bs, emit (as.map ARec.toRec) o = some bs ∧ strictFlat bs = some ⟨as.map ARec.toSRec, [0]⟩ := by
   obtain ⟨bs, h1, _, h2⟩ := strictFlat_emit o as hv h1 hn hP ok fw
   exact ⟨bs, h1, h2⟩
+
+/-- emit half, at full strength: the bytes `to_boc` emits for a spec-valid typed tree `t` (any of the 6 option sets) denote,
+under the independent strict reader, exactly `[t]` — identical data bits, exotic flags (types) and references,
+recursively; the order used is a valid order of the distinct cells. -/
+theorem c03_emit_denotes (H : Bytes → Bytes) (t : Cell) (wf : TreeWF H t) (ty : Typed t) (p : PCell)
+    (hb : Cell.build H t = some p) (nc : NoCollision p) (fuel : Nat) (ord : List PCell) (h : p.order fuel = some ord)
+    (o : Opts) (hv : o.valid = true) (hn : ord.length < 2 ^ 32)
+    (hP : (payloadOf (sizeW (orderRecs ord)) (orderRecs ord)).length * 2 < 2 ^ 64) :
+    ∃ bs, p.toBoc fuel o = some bs ∧ strictParse H bs = some [toSCell t] :=
+  (strictParse_toBoc H t wf ty p hb nc fuel ord h o hv hn hP).2
+
+/-- the built object graph is a function of the tree: it caches exactly the model's `Cell.info` (hash, depth, mask at every
+level) of every sub-tree — so "same tree" implies "identical hash". -/
+theorem c03_same_tree_same_hash (H : Bytes → Bytes) (t : Cell) (p : PCell) (wf : TreeWF H t) (ty : Typed t)
+    (hb : Cell.build H t = some p) : Cell.info H t = some p.info :=
+  (build_sem H t p wf ty hb).1
 
 /-- `bytes.fromhex(b.hex()) == b`, and `Boc(b.hex())` holds the same bytes as `Boc(b)`. -/
 theorem c03_forms_hex (b : Bytes) (h : Bytes.WF b) :
